@@ -26,11 +26,15 @@ type c01sCase struct {
 	Len    int `json:"len"`
 	Shrink int `json:"shrink"`
 	ParkAt int `json:"park_at"`
+	// ModeOnly: instead of lowering TransferSize, the parked request is a SETATTR that sets the mode and nothing else,
+	// and a WRITE (offset Off, Len bytes) runs to completion beside it. Whichever of the two is taken first, the
+	// file afterwards holds the WRITE's bytes: a request that does not speak about size or data changes neither.
+	ModeOnly bool `json:"mode_only,omitempty"`
 }
 
 func genC01s(t *rapid.T) c01sCase {
 	return c01sCase{Base: pick(t, "base", 0, 10, 5000, 12000), Off: pick(t, "off", 0, 1, 100, 4096, 6000), Len: pick(t, "len", 2, 7, 100, 4096, 5000),
-		Shrink: pick(t, "shrink", 1, 3, 64, 4096), ParkAt: rapid.IntRange(1, 4).Draw(t, "park")}
+		Shrink: pick(t, "shrink", 1, 3, 64, 4096), ParkAt: rapid.IntRange(1, 4).Draw(t, "park"), ModeOnly: rapid.IntRange(0, 2).Draw(t, "modeonly") == 0}
 }
 
 func runC01s(tb stat.TB, c c01sCase) {
@@ -68,6 +72,7 @@ func runC01s(tb stat.TB, c c01sCase) {
 		}
 	})
 	var res *nfsx.Res
+	modeOnlyJudged := false
 	aDone := make(chan struct{})
 	started := false
 	wasParked := false
@@ -80,6 +85,62 @@ func runC01s(tb stat.TB, c c01sCase) {
 		data := make([]byte, c.Len)
 		for i := range data {
 			data[i] = fillA
+		}
+		if c.ModeOnly {
+			var sres, wres *nfsx.Res
+			armed.Store(true)
+			started = true
+			go func() {
+				defer close(aDone)
+				defer func() { recover() }()
+				sres = s.nfs(nfsx.ProcSetattr, nfsx.ArgsSetattr(lr.Fh, nfsx.Sattr{Mode: nfsx.U32p(0600)}, nil))
+			}()
+			select {
+			case <-parked:
+				wasParked = true
+			case <-aDone:
+			case <-time.After(10 * time.Second):
+				release()
+				tb.Fatalf("harness: SETATTR neither parked nor returned")
+			}
+			wd := make(chan struct{})
+			go func() {
+				defer close(wd)
+				defer func() { recover() }()
+				wres = s.nfs(nfsx.ProcWrite, nfsx.ArgsWrite(lr.Fh, uint64(c.Off), uint32(c.Len), nfsx.FileSync, data))
+			}()
+			select {
+			case <-wd:
+			case <-time.After(300 * time.Millisecond):
+				release() // (an implementation may serialise the requests of one file)
+				<-wd
+			}
+			release()
+			select {
+			case <-aDone:
+			case <-time.After(20 * time.Second):
+				tb.Fatalf("harness: SETATTR did not return after release")
+			}
+			res = nil
+			if wres == nil || wres.Status != nfsx.OK || int(wres.Count) != c.Len || sres == nil {
+				return
+			}
+			want := append([]byte(nil), base...)
+			for len(want) < c.Off+c.Len {
+				want = append(want, 0)
+			}
+			for i := 0; i < c.Len; i++ {
+				want[c.Off+i] = fillA
+			}
+			got, size, ok := v.PeekRead("/s0", 0, 1<<16)
+			if !ok {
+				tb.Fatalf("harness: /s0 vanished")
+			}
+			modeOnlyJudged = true
+			if int(size) != len(want) || string(got) != string(want) {
+				stat.Violate(tb, id, check, "acknowledged-write-undone-by-mode-only-setattr", c, "WRITE offset=%d of %d bytes replied OK count=%d while a SETATTR(mode only, %s) of the same file was parked at its backend call #%d; afterwards the backend file is %d bytes long (want %d) and differs from the model at byte %d", c.Off, c.Len, wres.Count, statusName(sres.Status), c.ParkAt, size, len(want), firstDiff(got, want))
+			}
+			return
 		}
 		armed.Store(true)
 		started = true
@@ -145,6 +206,10 @@ func runC01s(tb stat.TB, c c01sCase) {
 		<-aDone
 	}
 	if abandoned {
+		return
+	}
+	if c.ModeOnly {
+		stat.Case(c, wasParked && modeOnlyJudged, "mode_only_setattr_beside_write")
 		return
 	}
 	stat.Case(c, wasParked && res != nil && res.Status == nfsx.OK && int(res.Count) < c.Len)
